@@ -334,6 +334,17 @@ func c20CheckPkgOpts(p c20Pkg, o c20Opts) *c20Result {
 			one(k, true)
 		}
 	}
+	// attribution of the known dangling-reference defect (c20_lex.go)
+	if len(res.fails) > 0 && c20LiteralOperandRef(p, res.removed) {
+		for i := range res.fails {
+			switch res.fails[i].class {
+			case "eval-changed", "removed-alone-changes", "readded-alone-changes":
+				if res.fails[i].sem == "" {
+					res.fails[i].sem = c20SemLitOperand
+				}
+			}
+		}
+	}
 	return res
 }
 
